@@ -314,7 +314,10 @@ def run(world, rep, tier, only=None):
         if key not in now:
             rep.ob("C14.a", "%s:%s#%d restricting conditions" % key, False, "verifier call no longer present")
             continue
-        extra = [x for x in now[key] if x not in ref[key]]
+        # conditions are compared by what they read (fields, macros, callees) and their polarity, not by their
+        # spelling: an equivalent rewrite keeps the key, a condition that reads something else or less does not
+        refkeys = {_cond_key(x) for x in ref[key]}
+        extra = [x for x in now[key] if _cond_key(x) not in refkeys]
         rep.ob("C14.a", "%s:%s#%d restricted only by the recorded conditions" % key, not extra,
                "conditions under which the read path skips the verifier: %d recorded; new or changed: %s" %
                (len(ref[key]), [x[:90] for x in extra]))
@@ -616,6 +619,13 @@ def verify_guards(world, prog, readers):
             lits = sorted(set(("" if t else "!") + _deep(fn, a) for (t, a) in control_lits(fn, v)))
             out[("%s:%s" % (file, fname), ver, i)] = lits
     return out
+
+
+def _cond_key(text):
+    import re
+    neg = text.startswith("!")
+    toks = set(re.findall(r"[A-Za-z_][A-Za-z0-9_]*", text))
+    return ("!" if neg else "") + " ".join(sorted(toks))
 
 
 VG_REF = __import__("os").path.join(__import__("os").path.dirname(__import__("os").path.abspath(__file__)), "ref", "c14_verify_guards.tsv")
